@@ -147,7 +147,8 @@ def in_words(ctx, locale, unit):
     if err is None:
         ctx.claim("non-empty", len(r) > 0)
         ctx.claim("every placeholder substituted", "{" not in r and "}" not in r)
-        ctx.observe("r", r)
+        # the sub-second rendering goes through a float ("%.2f"): any admissible rounding in the model
+        ctx.observe("r", r if unit not in ("us", "all") else "rendered")
     else:
         ctx.observe("exc", type(err).__name__)
 
